@@ -22,7 +22,7 @@ ASSUMPTIONS = [
 ]
 N_RANDOM = {'quick': 1500, 'thorough': 10000}
 STAGES = ['shuffle_once', 'reshuffle', 'local', 'local_copy', 'reshuffle_catch', 'reshuffle_apply', 'reshuffle_copy',
-          'reshuffle_prefetch', 'reshuffle_and_copies', 'local_items', 'reshuffle_items', 'tile_shuffle', 'choice']
+          'reshuffle_prefetch', 'reshuffle_prefetch_thread1', 'reshuffle_and_copies', 'local_items', 'reshuffle_items', 'tile_shuffle', 'choice']
 
 
 # stages whose iteration runs ReShuffleDataset.__iter__ directly on the shared object (the K1 situation)
@@ -55,6 +55,8 @@ def build(stage, n, buf, sd, extra):
         return keyed.shuffle(True, rng=rng).items().map(unpair), n
     if stage == 'reshuffle_prefetch':
         return base.shuffle(True, rng=rng).map(lambda x: x).prefetch(2, 2), n
+    if stage == 'reshuffle_prefetch_thread1':
+        return base.shuffle(True, rng=rng).map(lambda x: x).prefetch(1, 2, backend='thread'), n
     if stage == 'reshuffle_apply':
         return base.shuffle(True, rng=rng).apply(lambda d: d.map(lambda x: x), lazy=True), n
     if stage == 'local':
@@ -114,6 +116,15 @@ def check(case):
     stage, n, buf, sd = case['stage'], case['n'], case.get('buffer', 1), case['seed']
     extra = case.get('extra', 1)
     word, k = case.get('word', []), case.get('iters', 1)
+    if stage == 'choice' and extra > n:
+        # more examples than there are cannot be sampled without replacement: must be refused
+        try:
+            ds, _ = build(stage, n, buf, sd, extra)
+            got = list(ds)
+        except Exception:
+            return 0
+        raise Violation('oversampling-accepted|choice', f'{case}\nrandom_choice({extra}, replace=False) of {n} '
+                                                        f'examples returned {got}')
     ds, out_len = build(stage, n, buf, sd, extra)
     desc = f'{case}'
     if case.get('compose'):
@@ -195,7 +206,7 @@ def st_case(draw):
     if stage == 'tile_shuffle':
         case['extra'] = draw(st.integers(1, 3))
     if stage == 'choice':
-        case['extra'] = draw(st.integers(0, n))
+        case['extra'] = draw(st.integers(0, n + 2))
         if n == 0:
             case['stage'] = 'shuffle_once'
     if case['stage'] in ('reshuffle', 'shuffle_once', 'local') and n >= 1 and \
@@ -229,11 +240,12 @@ def run_shard(tier, idx, nshards, rec, known):
     nmax3 = 2 if tier == 'quick' else 3
     k = 0
     for stage in ['shuffle_once', 'reshuffle', 'local', 'local_copy', 'reshuffle_catch', 'reshuffle_apply',
-                  'reshuffle_copy', 'reshuffle_prefetch', 'reshuffle_and_copies', 'local_items', 'reshuffle_items']:
+                  'reshuffle_copy', 'reshuffle_prefetch', 'reshuffle_prefetch_thread1', 'reshuffle_and_copies',
+                  'local_items', 'reshuffle_items']:
         for n_iters, nmax in ((1, 5), (2, nmax2), (3, nmax3)):
             for n in range(0, nmax + 1):
                 bufs = range(1, n + 2) if stage.startswith('local') else [1]
-                if stage == 'reshuffle_prefetch' and (n_iters == 3 or n > 3):
+                if stage.startswith('reshuffle_prefetch') and (n_iters == 3 or n > 3):
                     continue  # real threads: keep the enumerated part small
                 for wd in words(n_iters, n + 1) if n_iters > 1 else [()]:
                     k += 1
